@@ -254,6 +254,12 @@ class MemorySink(DataSink):
         else:
             bundle = v20.Bundle(all_objs, allow_custom=self.allow_custom)
 
+        # Serialize and encode before anything is created or opened: if that
+        # fails, a file which is there already must keep its content.
+        data = bundle.serialize(
+            pretty=True, encoding=encoding, ensure_ascii=False,
+        ).encode(encoding)
+
         if path.endswith(".json"):
             if not os.path.exists(os.path.dirname(path)):
                 os.makedirs(os.path.dirname(path))
@@ -264,9 +270,8 @@ class MemorySink(DataSink):
             # if the user only provided a directory, use the bundle id for filename
             path = os.path.join(path, bundle["id"] + ".json")
 
-        with io.open(path, "w", encoding=encoding) as f:
-            bundle = bundle.serialize(pretty=True, encoding=encoding, ensure_ascii=False)
-            f.write(bundle)
+        with io.open(path, "wb") as f:
+            f.write(data)
 
         return path
     save_to_file.__doc__ = MemoryStore.save_to_file.__doc__
